@@ -58,7 +58,13 @@ fn gen(r: &mut Rng, prop: &str) -> (SCase, Vec<u8>) {
         let exit_bias = prop == "C17" || prop == "C16";
         let mut g = TypedGen { r, out: vec![], nres, next_local: 6, budget, ev: 0, maxdepth, exit_bias };
         let mut labels = vec![(false, nres)];
-        let dead = g.seq(&mut labels, 0);
+        // C17 / C16: now and then the function leaves at its very first instruction (abort stub / early return) or has an
+        // empty body -- instruction 0 is then at once where the entry code goes and where exit code is due
+        let shape0 = if exit_bias { g.r.below(10) } else { 9 };
+        let dead = if shape0 == 0 && nres == 0 { false } else {
+            if shape0 == 1 { g.out.push(Op::Unreachable); } else if shape0 == 2 && nres == 0 { g.out.push(Op::Return); }
+            g.seq(&mut labels, 0)
+        };
         if nres == 1 && !dead { g.out.push(Op::Const(42)); }
         g.out.push(Op::End);
         let body = g.out.clone();
